@@ -125,7 +125,26 @@ def hHasBorder : Handler := handler fun args =>
   | [d] => do pure (SExp.ofBool (hasBorder (← d.toNats?)))
   | _ => none
 
-def tableC50 : List (String × Handler) := [
+/-- `(fileblocksnz (d…) (data…) bs)`: `read_bytes(..., not_zero=True)` -/
+def hFileBlocksNZ : Handler := handler fun args =>
+  match args with
+  | [d, data, bs] => do
+    pure (okNatss (fileBlocksNotZero ieee (← data.toNats?) (← d.toNats?) (← bs.toNat?)))
+  | _ => none
+
+/-- `(sample n (d…) (data…))`: the header sample of `read_bytes(delimiter=d, sample=n)` -/
+def hSample : Handler := handler fun args =>
+  match args with
+  | [n, d, data] => do pure (SExp.ofNats (sampleOf (← n.toNat?) (← d.toNats?) (← data.toNats?)))
+  | _ => none
+
+/-- `(encode (code points…))` ↦ UTF-8 bytes -/
+def hEncode : Handler := handler fun args =>
+  match args with
+  | [t] => do pure (SExp.ofNats (encode (← t.toNats?)))
+  | _ => none
+
+def tableC50 : List (String × Handler) := [("fileblocksnz", hFileBlocksNZ), ("sample", hSample), ("encode", hEncode),
   ("plan", hPlan), ("round53", hRound53), ("seek", hSeek), ("seeksimple", hSeekSimple),
   ("readblock", hReadBlock), ("readblockchunked", hReadBlockChunked), ("fileblocks", hFileBlocks),
   ("pysplit", two pySplit), ("decode", two decode), ("ftb", two fileToBlocks),
@@ -495,7 +514,25 @@ def hVar : Handler := handler fun args =>
     | none => pure (.list [.sym "hang"])
   | _ => none
 
-def tableC48b : List (String × Handler) := [
+/-- `(foldbynoci keymod op init cop se parts)`: `foldby` without `combine_initial` -/
+def hFoldbyNoCI : Handler := handler fun args =>
+  match args with
+  | [km, .sym op, init, .sym cop, se, parts] => do
+    let km ← km.toNat?
+    pure (optOut ((foldbyNoCIB (fun (x : Int) => (x % (km : Int)).toNat) (← binopOf op) (← init.toInt?) (← binopOf cop)
+      (← se.toNat?) (← parts.toIntss?)).map ofIntPairs))
+  | _ => none
+
+/-- `(foldbynoinit keymod op cop se parts)`: `foldby` without initial values -/
+def hFoldbyNoInit : Handler := handler fun args =>
+  match args with
+  | [km, .sym op, .sym cop, se, parts] => do
+    let km ← km.toNat?
+    pure (optOut ((foldbyNoInitB (fun (x : Int) => (x % (km : Int)).toNat) (← binopOf op) (← binopOf cop)
+      (← se.toNat?) (← parts.toIntss?)).map ofIntPairs))
+  | _ => none
+
+def tableC48b : List (String × Handler) := [("foldbynoci", hFoldbyNoCI), ("foldbynoinit", hFoldbyNoInit),
   ("splitcuts", hSplitCuts), ("split", hSplit), ("repartitionieee", hRepartitionIeee), ("repartitionsize", hRepartitionSize),
   ("fromsequence", hFromSequence), ("mean", hMean), ("var", hVar)]
 
